@@ -42,12 +42,12 @@ func specHasAddr(h *TracerouteHop) bool { return len(h.IPAddress) != 0 }
 //@ loop 1 invariant[scan]  0 <= range_i && range_i <= len(tr.Hops) && forall(j, 0, range_i, !tr.Hops[j].IsDest)
 
 //@ func (*Results).RemovePrivateHops
-//@ safety C17
+//@ safety C17 C16
 //@ requires[pre.wf]       r != nil && forall(i, 0, len(r.Traceroute.Runs), forall(j, 0, len(r.Traceroute.Runs[i].Hops), r.Traceroute.Runs[i].Hops[j] != nil && allocated(r.Traceroute.Runs[i].Hops[j])))
 //@ requires[pre.sep]      forall(i, 0, len(r.Traceroute.Runs), forall(k, 0, len(r.Traceroute.Runs), i != k && len(r.Traceroute.Runs[i].Hops) > 0 && len(r.Traceroute.Runs[k].Hops) > 0 ==> r.Traceroute.Runs[i].Hops != r.Traceroute.Runs[k].Hops))
 //@ ensures[C17.runs]      len(r.Traceroute.Runs) == old(len(r.Traceroute.Runs))
 //@ ensures[C17.len]       forall(i, 0, len(r.Traceroute.Runs), len(r.Traceroute.Runs[i].Hops) == old(len(r.Traceroute.Runs[i].Hops)))
-//@ ensures[C17.redact]    forall(i, 0, len(r.Traceroute.Runs), forall(j, 0, len(r.Traceroute.Runs[i].Hops), old(specPrivate(r.Traceroute.Runs[i].Hops[j].IPAddress)) ==> specRedacted(r.Traceroute.Runs[i].Hops[j], old(r.Traceroute.Runs[i].Hops[j].TTL))))
+//@ ensures[C16+C17.redact]    forall(i, 0, len(r.Traceroute.Runs), forall(j, 0, len(r.Traceroute.Runs[i].Hops), old(specPrivate(r.Traceroute.Runs[i].Hops[j].IPAddress)) ==> specRedacted(r.Traceroute.Runs[i].Hops[j], old(r.Traceroute.Runs[i].Hops[j].TTL))))
 //@ ensures[C17.keep]      forall(i, 0, len(r.Traceroute.Runs), forall(j, 0, len(r.Traceroute.Runs[i].Hops), !old(specPrivate(r.Traceroute.Runs[i].Hops[j].IPAddress)) ==> r.Traceroute.Runs[i].Hops[j] == old(r.Traceroute.Runs[i].Hops[j])))
 //@ ensures[C17.noprivate] forall(i, 0, len(r.Traceroute.Runs), forall(j, 0, len(r.Traceroute.Runs[i].Hops), !specPrivate(r.Traceroute.Runs[i].Hops[j].IPAddress)))
 //@ modifies elemtype(*TracerouteHop)
